@@ -508,3 +508,116 @@ func fmtLits(ls []Lit) string {
 }
 
 var _ = fmt.Sprintf
+
+// reachAvoid: is an instruction satisfying pred reachable from successor #succ of b without
+// entering a block for which stop is true?
+func reachAvoid(b *ssa.BasicBlock, succ int, pred func(ssa.Instruction) bool, stop func(*ssa.BasicBlock) bool) ssa.Instruction {
+	seen := map[*ssa.BasicBlock]bool{}
+	var found ssa.Instruction
+	var walk func(x *ssa.BasicBlock)
+	walk = func(x *ssa.BasicBlock) {
+		if seen[x] || found != nil || (stop != nil && stop(x)) {
+			return
+		}
+		seen[x] = true
+		for _, in := range x.Instrs {
+			if pred(in) {
+				found = in
+				return
+			}
+		}
+		for _, s := range x.Succs {
+			walk(s)
+		}
+	}
+	walk(b.Succs[succ])
+	return found
+}
+
+// selectCaseOf decodes a literal "(k == select#0)": the select instruction and the chosen state.
+func selectCaseOf(l Lit) (*ssa.Select, int, bool) {
+	s := l.S
+	if s.Op != "bin" || s.Name != "==" || !l.Truth {
+		return nil, 0, false
+	}
+	for i := 0; i < 2; i++ {
+		k, ok := s.Args[i].ConstInt()
+		other := s.Args[1-i]
+		if ok && other.Op == "extract" && other.Name == "0" {
+			if sel, ok := other.Args[0].V.(*ssa.Select); ok {
+				return sel, int(k), true
+			}
+		}
+	}
+	return nil, 0, false
+}
+
+// edgeDemotesAndExits: from successor #succ of b every path reaches a may-demote call before
+// any Return and before the next blocking select (the next tick of a loop).
+func (m *Model) edgeDemotesAndExits(b *ssa.BasicBlock, succ int) bool {
+	hasDemote := func(x *ssa.BasicBlock) bool {
+		for _, in := range x.Instrs {
+			if call, ok := in.(*ssa.Call); ok {
+				if g := call.Call.StaticCallee(); g != nil && m.isLib(g) && m.mayDemote(g, specFor(call, g), 0) {
+					return true
+				}
+			}
+		}
+		return false
+	}
+	// some demote must be reachable at all
+	if reachAvoid(b, succ, func(in ssa.Instruction) bool {
+		call, ok := in.(*ssa.Call)
+		if !ok {
+			return false
+		}
+		g := call.Call.StaticCallee()
+		return g != nil && m.isLib(g) && m.mayDemote(g, specFor(call, g), 0)
+	}, nil) == nil {
+		return false
+	}
+	escape := reachAvoid(b, succ, func(in ssa.Instruction) bool {
+		if _, isRet := in.(*ssa.Return); isRet {
+			return true
+		}
+		if s, ok := in.(*ssa.Select); ok && s.Blocking {
+			return true
+		}
+		return false
+	}, hasDemote)
+	if escape != nil {
+		return false
+	}
+	// after the demotion the function must return without another tick
+	ok := true
+	seen := map[*ssa.BasicBlock]bool{}
+	var walk func(x *ssa.BasicBlock, demoted bool)
+	walk = func(x *ssa.BasicBlock, demoted bool) {
+		key := x
+		if seen[key] && !demoted {
+			return
+		}
+		if demoted {
+			if seen[key] {
+				return
+			}
+		}
+		seen[key] = true
+		d := demoted
+		for _, in := range x.Instrs {
+			if call, isCall := in.(*ssa.Call); isCall {
+				if g := call.Call.StaticCallee(); g != nil && m.isLib(g) && m.mayDemote(g, specFor(call, g), 0) {
+					d = true
+				}
+			}
+			if s, isSel := in.(*ssa.Select); isSel && s.Blocking && d {
+				ok = false
+			}
+		}
+		for _, sx := range x.Succs {
+			walk(sx, d)
+		}
+	}
+	walk(b.Succs[succ], false)
+	return ok
+}
